@@ -399,7 +399,13 @@ def solve(ctx: Ctx, ob, timeout_ms=None, want_model=False, extra_axioms=(), use_
     tmo = timeout_ms or Z3_TIMEOUT_MS
     reason = ""
     last = None
-    for cfg in (("ematch", False, max(1000, tmo // 4)), ("mbqi", True, tmo)):
+    # E-matching alone decides almost every obligation of the contracts (the lemma instances are explicit); it gets most of the
+    # budget so that a loaded machine does not push a 1-second proof into the (divergence-prone) MBQI configuration.
+    # Portfolio member 1 is E-matching only with the whole budget twice over.
+    cfgs = (("ematch", False, max(1000, (tmo * 3) // 5)), ("mbqi", True, tmo))
+    if seed == 1:
+        cfgs = (("ematch", False, 2 * tmo),)
+    for cfg in cfgs:
         s = z3.Solver()
         s.set("timeout", cfg[2])
         if not cfg[1]:
